@@ -850,6 +850,9 @@ impl<F: Read + Write + Seek> CompoundFile<F> {
             Some(stream_id) => stream_id,
             None => not_found!("Parent storage doesn't exist"),
         };
+        if self.minialloc().dir_entry(parent_id).obj_type == ObjType::Stream {
+            invalid_input!("Parent is not a storage");
+        }
         self.minialloc_mut().insert_dir_entry(
             parent_id,
             name,
@@ -1033,6 +1036,9 @@ impl<F: Read + Write + Seek> CompoundFile<F> {
             Some(stream_id) => stream_id,
             None => not_found!("Parent storage doesn't exist"),
         };
+        if self.minialloc().dir_entry(parent_id).obj_type == ObjType::Stream {
+            invalid_input!("Parent is not a storage");
+        }
         let new_stream_id = self.minialloc_mut().insert_dir_entry(
             parent_id,
             name,
